@@ -251,9 +251,8 @@ Definition connect_addr (handler hostport : str) : str :=
     join_host_port (url_hostname hostport) (if is_empty p then socks5_default_port else p)
   else hostport.                                     (* dialvia/http.go: d.proxyURL.Host *)
 
-(* MODELLED net/http: portMap and canonicalAddr (ASCII hosts; IDNA conversion is outside the model) *)
-Definition transport_port_map : list (str * str) :=
-  [(b "http", b "80"); (b "https", b "443"); (b "socks5", b "1080"); (b "socks5h", b "1080")].
+(* MODELLED net/http canonicalAddr (ASCII hosts; IDNA conversion is outside the model); portMap and the
+   SOCKS schemes of dialConn are read from the toolchain's own transport.go (Tables.v) *)
 Definition canonical_addr (scheme hostport : str) : str :=
   let p := url_port hostport in
   join_host_port (url_hostname hostport)
@@ -282,7 +281,7 @@ Definition route_plain (rules : list rule) (pr : presult) (t : target) : outcome
                      (str_eqb (t_scheme t) (b "https")) WDirect
   | PUrl sch hp =>
       let addr := dial_redirect rules (canonical_addr sch hp) in
-      if str_eqb sch (b "socks5") || str_eqb sch (b "socks5h") then OSent addr false WSocks
+      if mem sch transport_socks_schemes then OSent addr false WSocks
       else OSent addr (str_eqb sch (b "https"))
                  (if str_eqb (t_scheme t) (b "http") then WAbs else WConnect)
   end.
